@@ -43,6 +43,13 @@ func main() {
 			terms = append(terms, runVestCase(ta, *seed, i, rep, *profile))
 			rep.Cases++
 		}
+	case "minter":
+		require, caseType = "Minter", "mcase"
+		ta := NewTestApp(GenOpts{Time: time.Unix(1690000000, 0).UTC()})
+		for i := lo; i < hi; i++ {
+			terms = append(terms, runMinterCase(ta, *seed, i, rep, *profile)...)
+			rep.Cases++
+		}
 	default:
 		fmt.Println("unknown kind", kind)
 		os.Exit(2)
